@@ -24,22 +24,23 @@ VStep(s, ch) ==
            LET s1 == L2Step(s, ch) IN IF ch.k = "unc" /\ s1.ret = "run" THEN [s1 EXCEPT !.needProps = s.needProps] ELSE s1
       [] OTHER -> L2Step(s, ch)
 
-Init == /\ chunks \in UNION {[1..n -> Kinds] : n \in 1..MaxChunks}
-        /\ k = 0 /\ st = L2Init(FALSE)
-Next == /\ st.ret = "run" /\ k < Len(chunks)
-        /\ k' = k + 1
-        /\ st' = VStep(st, WithId(chunks[k + 1], k + 1))
-        /\ UNCHANGED chunks
+(* the chunk sequence is built one chunk at a time (every prefix is itself a - truncated - stream) *)
+Init == chunks = <<>> /\ k = 0 /\ st = L2Init(FALSE)
+Next == /\ st.ret = "run" /\ k < MaxChunks
+        /\ \E kind \in Kinds :
+              /\ chunks' = Append(chunks, kind)
+              /\ k' = k + 1
+              /\ st' = VStep(st, WithId(kind, k + 1))
 Spec == Init /\ [][Next]_vars
 
 Cs == [i \in 1..Len(chunks) |-> WithId(chunks[i], i)]
-Finished == st.ret # "run" \/ k = Len(chunks)
+Finished == TRUE       \* every reachable state is the end of some input
 AcceptIffValid == Finished => ((st.ret = "STREAM_END") <=> L2Valid(Cs))
 MeaningExact == (Finished /\ st.ret = "STREAM_END") => (st.out = L2Meaning(Cs) /\ st.used = L2Size(Cs))
 (* every output produced before an error is a prefix of the data of the chunks seen *)
 PrefixOnError == \A i \in 1..Len(st.out) : st.out[i] = i
 FunctionalAgrees == Finished => (Variant = "ok" => st = L2Run(Cs))
 (* (G) plan emission: one line per chunk sequence when the machine stops *)
-Emit == (st'.ret # "run" \/ k' = Len(chunks)) =>
-           PrintT(<<"PLAN", ToJson([chunks |-> chunks, ret |-> st'.ret, out |-> st'.out, nseen |-> k'])>>)
+Emit == (st'.ret # "run" \/ k' = MaxChunks) =>
+           PrintT(<<"PLAN", ToJson([chunks |-> chunks', ret |-> st'.ret, out |-> st'.out, nseen |-> k'])>>)
 =============================================================================
